@@ -79,6 +79,22 @@ def check(ctx):
             ctx.violation("epoch:frame-differs", "a generated frame does not carry libwifi_get_epoch's value at clock %s: %s" % (pts[i], c_outs[i]),
                           {"kind": "pair", "t1": pts[i], "t2": pts[i], "observed": c_outs[i]})
     ctx.oblige("spec-on-impl", "timestamps non-decreasing along %d sorted clock readings, frames carry the epoch value" % len(pts), bad == 0)
+    # a timestamp derives from the clock reading alone: the same readings with a non-zero errno left behind by an unrelated
+    # earlier failure, an unrelated earlier library call and other heap contents
+    env = {"LWV_ERRNO": "2", "LWV_PRECALL": "1", "LWV_FILL": "205"}
+    sub = list(range(0, len(lines), max(1, len(lines) // 400)))
+    eo, _ = diffrun.run_harness_all(exe, [lines[i] for i in sub], env=env)
+    ebad = 0
+    for i, o in zip(sub, eo):
+        if o != c_outs[i]:
+            ebad += 1
+            if ebad <= 2:
+                j = max(i - 1, 0)
+                ctx.violation("epoch:environment:%s" % (pts[i],), "the timestamp depends on more than the clock reading: clock %ss+%sns gives %s, and %s when an earlier unrelated call left errno=2 "
+                              "(so a frame stamped at the earlier reading %ss+%sns, %s, is followed by a smaller timestamp)" % (pts[i][0], pts[i][1], c_outs[i], o, pts[j][0], pts[j][1], c_outs[j]),
+                              {"kind": "pair-env", "t1": pts[j], "t2": pts[i], "env": env, "observed": o, "expected": c_outs[i]})
+    ctx.count(len(sub))
+    ctx.oblige("spec-on-impl", "same timestamps with errno=2, an earlier unrelated call and other heap contents on %d readings" % len(sub), ebad == 0)
     if broken and not ctx.violations and not ctx.known_hits:
         for name, detail in broken[:3]:
             ctx.violation("theorem:" + name, "proof obligation no longer checks: %s — %s" % (name, detail[:300]), {"broken": name, "detail": detail}, found_input=False)
@@ -89,6 +105,12 @@ def check(ctx):
 
 def replay(rp):
     exe, err = diffrun.build_harness("asan")
+    if rp.get("kind") == "pair-env":
+        a, _ = diffrun.run_harness_all(exe, ["epoch %d %d" % tuple(rp["t1"])])
+        b, _ = diffrun.run_harness_all(exe, ["epoch %d %d" % tuple(rp["t2"])], env=rp["env"])
+        pa, pb = parse(a[0]), parse(b[0])
+        good = pa is not None and pb is not None and all(pa[k] <= pb[k] for k in "ebpt")
+        return good, "clock %s -> %s ; later clock %s with %s -> %s" % (rp["t1"], a[0], rp["t2"], rp["env"], b[0])
     if rp.get("kind") != "pair":
         return False, "replay names a broken obligation, not an input: %s" % rp.get("broken")
     o, rc, e = diffrun.run_lines(exe, ["epoch %d %d" % tuple(rp["t1"]), "epoch %d %d" % tuple(rp["t2"])])
